@@ -2,7 +2,7 @@
 """Copy a confirmed sub-agent mutant into /verif/seeded/<id>/ (patch.diff, demo.py, notes.md, meta.json)."""
 import json, os, shutil, subprocess, sys
 prop, x, slug, needs = sys.argv[1], sys.argv[2], sys.argv[3], sys.argv[4]
-wt = "/tmp/wt-%s" % prop
+wt = os.environ.get("SEED_WT", "/tmp/wt-%s" % prop)
 sid = "%s-%s-%s" % (prop, x, slug)
 d = os.path.join("/verif/seeded", sid)
 os.makedirs(d, exist_ok=True)
@@ -10,11 +10,12 @@ shutil.copy(os.path.join(wt, "MUTANTS", x + ".diff"), os.path.join(d, "patch.dif
 shutil.copy(os.path.join(wt, "MUTANTS", "demo_%s.py" % x), os.path.join(d, "demo.py"))
 shutil.copy(os.path.join(wt, "MUTANTS", "notes.md"), os.path.join(d, "notes.md"))
 conf = open("/tmp/confirm/%s-%s.log" % (prop, x), errors="replace").read()
-tests = [l for l in conf.splitlines() if " passed" in l or " failed" in l]
+import re as _re
+tests = [l for l in conf.splitlines() if _re.search(r"\d+ (passed|failed)", l)]
 res = [l for l in conf.splitlines() if l.startswith("RESULT")]
 files = [l[6:] for l in open(os.path.join(d, "patch.diff")) if l.startswith("+++ b/")]
 meta = {"id": sid, "breaks_property": prop, "author": "independent sub-agent given only the property text and a scratch worktree",
-        "base_commit": "7d67693", "files": [f.strip() for f in files], "needs_to_manifest": needs,
+        "base_commit": os.environ.get("SEED_BASE", "7d67693"), "files": [f.strip() for f in files], "needs_to_manifest": needs,
         "confirmed": {"tests_with_mutant": tests[-1] if tests else None, "demo": res[-1] if res else None,
                       "how": "tools/seed_confirm.sh /tmp/wt-%s %s (git apply; pytest; demo.py with the change -> exit 1; git checkout; demo.py without -> exit 0)" % (prop, x)},
         "checks": {}}
